@@ -360,7 +360,12 @@ def replace_all_uses_with(
     # Check all values first so that no value is replaced when one of them is rejected
     new_owners: dict[int, _core.Graph | None] = {}
     for value, replacement in zip(values, replacements):
-        if not value.is_graph_output():
+        if value.is_graph_output():
+            output_graph = value.graph
+        elif id(value) in new_owners:
+            # The value becomes a graph output through an earlier pair of this call
+            output_graph = new_owners[id(value)]
+        else:
             continue
         if not replace_graph_outputs:
             raise ValueError(
@@ -380,11 +385,11 @@ def replace_all_uses_with(
             owner = replacement.graph
         else:
             owner = None
-        if owner is not None and owner is not value.graph:
+        if owner is not None and owner is not output_graph:
             raise ValueError(
                 f"{replacement!r} is owned by a different graph and cannot replace the graph output {value!r}."
             )
-        new_owners[id(replacement)] = value.graph
+        new_owners[id(replacement)] = output_graph
     for value, replacement in zip(values, replacements):
         value.replace_all_uses_with(replacement, replace_graph_outputs=replace_graph_outputs)
 
